@@ -327,6 +327,8 @@ def run_case(case):
         ss = _sp()
         n = case['n']
         xs = np.exp(np.linspace(math.log(0.05), math.log(20.0), case['npts'] + 2)[1:-1])
+        # large arguments: K_n is of order 1e-9 .. 1e-27 there, far from underflow; value and derivative are compared on their own scale
+        xs = np.concatenate([xs, [18.5, 30.0, 60.0]])
         for ix, x in enumerate(xs):
             x = float(x)
             sub = dict(case, x=x)
